@@ -1,4 +1,5 @@
 import JxlModel.Model.Enc.ModularEnc
+import JxlModel.Model.Icc
 /-!
 # Reference encoder: image header, frame header, TOC, frames, codestream
 
@@ -37,6 +38,20 @@ structure ImgHdr where
   /-- encoded ICC stream to embed (already entropy coded bits), `none` = enum colour encoding -/
   icc : Option (List Bool) := none
   deriving Repr, Inhabited
+
+/-- the ICC part of the codestream (`read_icc`, jxl-color/src/icc/decode.rs): `enc_size` as U64,
+an entropy-coded stream of `enc_size` bytes over 41 contexts chosen by `get_icc_ctx`.
+`encoded` is the output of the ICC command encoder (`Jxl.Icc.encodeIcc`). -/
+def iccStreamBits (ansCoder : Bool) (encoded : List Nat) : List Bool :=
+  let w0 : BW := #[]
+  let w := w0.u64 encoded.length
+  let step := fun (st : List Jxl.Enc.Item × Nat × Nat × Nat) (b : Nat) =>
+    let (acc, idx, b1, b2) := st
+    (.lit (Jxl.Icc.getIccCtx idx b1 b2) b :: acc, idx + 1, b, b1)
+  let items := (encoded.foldl step ([], 0, 0, 0)).1.reverse
+  let kind : CoderKind := if ansCoder then .ans 8 else .prefix
+  let plan := (autoPlan kind 41).resolve items
+  (w.bits (encodeHeader plan ++ encodeItems plan items)).toList
 
 def sizeDist : List Dist := [.bits 1 9, .bits 1 13, .bits 1 18, .bits 1 30]
 
